@@ -391,7 +391,7 @@ pub fn property() -> Property {
             Box::new(Sub {
                 name: "roundtrip",
                 rule: "matrices 1..=12 x 1..=12 in seven density classes (all-zero, single entry, sparse, about half, full, forced empty row+column, uniform), ones inserted in shuffled order; oracle: alist()/alist_no_padding()/write_* -> own strict reader (header, true maxima, weight lines, strictly increasing 1-based lists, padding exactly to the maximum) and -> from_alist gives same dimensions and set; own writer's padded and unpadded texts parse to the matrix; non-trivial = an empty row/column or irregular weights",
-                cases: |t| t.pick(50_000, 2_000_000),
+                cases: |t| t.pick(500_000, 10_000_000),
                 strategy: |t| matrix_strategy(t.pick(12, 24)),
                 check: check_roundtrip,
                 health: &[("empty-row-or-column", 0.30), ("all-zero", 0.02)],
@@ -406,7 +406,7 @@ pub fn property() -> Property {
             Box::new(Sub {
                 name: "totality",
                 rule: "texts: valid alists (own writer) under 0..=3 token/line/byte-level mutations (delete/duplicate/replace token by 0, small numbers, 1000001, -1, +3, letters, 1.5, 30-digit and 2^64 numbers; drop/duplicate/swap lines; truncate at any byte; CRLF; tabs; trailing blanks), token soups behind a numeric header, raw digit/space/newline strings; declared dimensions kept <= 80 by construction; oracle: from_alist never panics, Ok(h) has the declared dimensions and in-range entries and re-writes to a text that parses to the same matrix, and any text the own strict reader accepts must be accepted with exactly that matrix; non-trivial = mutated text that gets past the header",
-                cases: |t| t.pick(100_000, 5_000_000),
+                cases: |t| t.pick(1_000_000, 30_000_000),
                 strategy: text_strategy,
                 check: check_text,
                 health: &[("mutated-accepted", 0.20), ("mutated-rejected", 0.20)],
